@@ -1,23 +1,627 @@
+// Command verif is the orchestrator of the deterministic-simulation checks: it
+// regenerates the detsel overlay from /repo's current sources, rebuilds the
+// simulator test binary, fans run indices out over worker processes, merges
+// their results, confirms every violation by replaying its minimised replay
+// file in a fresh process, applies the known-findings file and writes the
+// evidence file. It has no dependency on /repo itself.
+//
+// Exit codes: 0 property held on everything explored (possibly after
+// KNOWN-FINDING lines); 1 violation (VIOLATION line printed); 2 trouble of the
+// machinery itself (build failure, violation that does not replay, ...).
 package main
 
 import (
+	"bufio"
+	"bytes"
+	"encoding/json"
 	"fmt"
 	"os"
+	"os/exec"
+	"path/filepath"
+	"sort"
+	"strconv"
+	"strings"
+	"sync"
+	"time"
 
 	"veriforch/detsel"
 )
 
+var root = "/verif"
+var repo = "/repo"
+
+type propDef struct {
+	ID       string
+	Engine   string
+	Level    string
+	QuickMs  int64 // per-worker wall budget
+	ThorMs   int64
+	QuickMax int // max runs per worker (0 = until the budget)
+	ThorMax  int
+	Rule     string
+	Mode     string
+}
+
+var props = map[string]*propDef{}
+
+func init() {
+	execRule := func(nt string) string {
+		return "runs = generated worlds (1-3 plans of random shape with seeded plugin outcome scripts, client scripts, scheduling policy and delay faults), each executed once by the real engine under the seeded scheduler; a run is non-trivial if " + nt + "; distinct = distinct trace signatures (hash of the ordered list of (event kind, logical object, outcome/status, attempt count) with times, ids and sequence numbers removed) among the non-trivial runs"
+	}
+	for _, p := range []*propDef{
+		{ID: "C01", Engine: "exec", Level: "exploration", Rule: execRule("some ordering constraint was exercised (a sequence with >= 2 invoked actions, >= 2 blocks with invocations, or a check group next to sequences)")},
+		{ID: "C02", Engine: "exec", Level: "exploration", Rule: execRule("a block had invocations in >= 2 of its sequences")},
+		{ID: "C03", Engine: "exec", Level: "exploration", Rule: execRule("a sequence ended Failed in a block with >= 2 sequences")},
+		{ID: "C04", Engine: "exec", Level: "exploration", Rule: execRule("a Wait on a started plan returned a plan that Failed or that had continuous checks")},
+		{ID: "C05", Engine: "exec", Level: "exploration", Rule: execRule("some plugin invocation failed (retry, permanent error, wrong type or timeout)")},
+		{ID: "C06", Engine: "exec", Level: "exploration", Rule: execRule("a bypass group ran, or a pre-check or the initial run of a continuous check failed")},
+		{ID: "C07", Engine: "exec", Level: "exploration", Rule: execRule("a continuous check ran at least twice, or a scope with deferred checks failed")},
+		{ID: "C08", Engine: "exec", Level: "exploration", Rule: execRule("a retry happened or a Status poller observed the plan more than once")},
+		{ID: "C12", Engine: "exec", Level: "exploration", Rule: execRule("a plan saw >= 2 Start calls, an unknown id was used, or a start around maxSubmit was tried")},
+	} {
+		p.QuickMs, p.ThorMs = 40_000, 600_000
+		props[p.ID] = p
+	}
+}
+
+func goEnv() []string {
+	env := os.Environ()
+	env = append(env, "GOFLAGS=-mod=mod", "GOPROXY=off", "GOSUMDB=off", "GOTOOLCHAIN=local")
+	return env
+}
+
+func die(code int, format string, args ...any) {
+	fmt.Fprintf(os.Stderr, format+"\n", args...)
+	os.Exit(code)
+}
+
+// build regenerates the overlay and the simulator binary from /repo's working tree.
+func build() (simBin string, rep *detsel.Report) {
+	ovDir := filepath.Join(root, "build", "overlay")
+	ov, rep, err := detsel.Generate(repo, ovDir)
+	if err != nil {
+		die(2, "BUILD-TROUBLE detsel: %v", err)
+	}
+	src, err := os.ReadFile(filepath.Join(repo, "go.sum"))
+	if err == nil {
+		os.WriteFile(filepath.Join(root, "sim", "go.sum"), src, 0o644)
+	}
+	simBin = filepath.Join(root, "bin", "sim.test")
+	cmd := exec.Command("go1.26.8", "test", "-c", "-vet=off", "-tags", "verif", "-overlay", ov, "-o", simBin, ".")
+	cmd.Dir = filepath.Join(root, "sim")
+	cmd.Env = goEnv()
+	out, err := cmd.CombinedOutput()
+	if err != nil {
+		die(2, "BUILD-TROUBLE go test -c failed (the tree under /repo does not compile with the harness):\n%s", out)
+	}
+	return simBin, rep
+}
+
+type found struct {
+	Index  int    `json:"index"`
+	Seed   uint64 `json:"seed"`
+	V      struct {
+		Prop  string `json:"prop"`
+		Rule  string `json:"rule"`
+		Class string `json:"class"`
+		Msg   string `json:"msg"`
+	} `json:"v"`
+	Replay string `json:"replay"`
+	Probes int    `json:"probes"`
+	Count  int    `json:"count"`
+}
+
+type workerResult struct {
+	Runs       int            `json:"runs"`
+	Nontrivial int            `json:"nontrivial"`
+	Sigs       []string       `json:"sigs"`
+	SimNs      int64          `json:"simNs"`
+	Steps      int64          `json:"steps"`
+	Events     int64          `json:"events"`
+	Faults     map[string]int `json:"faults"`
+	Probes     map[string]int `json:"probes"`
+	Found      []*found       `json:"found"`
+	Harness    []string       `json:"harness"`
+	Overruns   int            `json:"overruns"`
+	Hangs      int            `json:"hangs"`
+	Samples    []any          `json:"samples"`
+	FirstSeed  uint64         `json:"firstSeed"`
+	LastSeed   uint64         `json:"lastSeed"`
+	Extra      map[string]int `json:"extra"`
+	WallMs     int64          `json:"wallMs"`
+	Detsel     int            `json:"detsel"`
+}
+
+type knownFinding struct {
+	Status   string `json:"status"` // known | fixed
+	Property string `json:"property"`
+	Class    string `json:"class"`
+	Witness  string `json:"witness,omitempty"`
+	Commit   string `json:"commit,omitempty"`
+	Note     string `json:"note,omitempty"`
+}
+
+func loadKnown() []knownFinding {
+	var out []knownFinding
+	f, err := os.Open(filepath.Join(root, "known_findings.jsonl"))
+	if err != nil {
+		return nil
+	}
+	defer f.Close()
+	sc := bufio.NewScanner(f)
+	sc.Buffer(make([]byte, 1<<20), 1<<24)
+	for sc.Scan() {
+		line := strings.TrimSpace(sc.Text())
+		if line == "" || strings.HasPrefix(line, "#") {
+			continue
+		}
+		var k knownFinding
+		if json.Unmarshal([]byte(line), &k) == nil {
+			out = append(out, k)
+		}
+	}
+	return out
+}
+
+func numWorkers() int {
+	if s := os.Getenv("VERIF_WORKERS"); s != "" {
+		if n, err := strconv.Atoi(s); err == nil && n > 0 {
+			return n
+		}
+	}
+	return 16
+}
+
+func runWorker(simBin string, job map[string]any, dir string, k int, gomaxprocs string) (res *workerResult, crashed bool, stderrTail string, lastIdx int) {
+	jobFile := filepath.Join(dir, fmt.Sprintf("job%d.json", k))
+	out := filepath.Join(dir, fmt.Sprintf("out%d.json", k))
+	journal := filepath.Join(dir, fmt.Sprintf("journal%d.txt", k))
+	job["out"], job["journal"] = out, journal
+	jb, _ := json.Marshal(job)
+	os.WriteFile(jobFile, jb, 0o644)
+	os.Remove(out)
+	cmd := exec.Command(simBin, "-test.run", "^TestWorker$", "-test.timeout", "0", "-test.count", "1")
+	cmd.Env = append(os.Environ(), "SIM_JOB="+jobFile, "GOMAXPROCS="+gomaxprocs)
+	var stderr bytes.Buffer
+	cmd.Stdout = &stderr
+	cmd.Stderr = &stderr
+	err := cmd.Run()
+	lastIdx = -1
+	if jb, e := os.ReadFile(journal); e == nil {
+		lines := strings.Split(strings.TrimSpace(string(jb)), "\n")
+		if len(lines) > 0 {
+			f := strings.Fields(lines[len(lines)-1])
+			if len(f) >= 2 {
+				lastIdx, _ = strconv.Atoi(f[1])
+			}
+		}
+	}
+	rb, rerr := os.ReadFile(out)
+	if err != nil || rerr != nil {
+		s := stderr.String()
+		if len(s) > 6000 {
+			s = s[:3000] + "\n…\n" + s[len(s)-3000:]
+		}
+		return nil, true, s, lastIdx
+	}
+	res = &workerResult{}
+	if e := json.Unmarshal(rb, res); e != nil {
+		return nil, true, "bad result file: " + e.Error(), lastIdx
+	}
+	return res, false, "", lastIdx
+}
+
+func replayOnce(simBin, path string) (reproduced bool, output string) {
+	cmd := exec.Command(simBin, "-test.run", "^TestReplay$", "-test.timeout", "0", "-test.count", "1")
+	cmd.Env = append(os.Environ(), "SIM_REPLAY="+path)
+	out, _ := cmd.CombinedOutput()
+	return bytes.Contains(out, []byte("REPRODUCED property=")) && !bytes.Contains(out, []byte("NOT-REPRODUCED")), string(out)
+}
+
+func check(id, tier string) int {
+	p := props[id]
+	if p == nil {
+		die(2, "unknown property %q", id)
+	}
+	start := time.Now()
+	baseSeed := uint64(1)
+	if s := os.Getenv("VERIF_SEED"); s != "" {
+		if n, err := strconv.ParseUint(s, 10, 64); err == nil {
+			baseSeed = n
+		} else if n, err := strconv.ParseInt(s, 10, 64); err == nil {
+			baseSeed = uint64(n)
+		}
+	}
+	simBin, dsRep := build()
+	if p.Engine == "special" {
+		return specialCheck(p, tier, baseSeed, simBin, start)
+	}
+	dir := filepath.Join(root, "build", fmt.Sprintf("run-%s-%s-%d", id, tier, os.Getpid()))
+	os.MkdirAll(dir, 0o755)
+	defer os.RemoveAll(dir)
+	replayDir := filepath.Join(root, "replays")
+	os.MkdirAll(replayDir, 0o755)
+	// stale replay files of this property/engine are removed: they are rewritten if the violation persists
+	if old, _ := filepath.Glob(filepath.Join(replayDir, id+"-"+p.Engine+"-*.json")); old != nil {
+		for _, f := range old {
+			os.Remove(f)
+		}
+	}
+	nw := numWorkers()
+	wall, maxRuns := p.QuickMs, p.QuickMax
+	if tier == "thorough" {
+		wall, maxRuns = p.ThorMs, p.ThorMax
+	}
+	if s := os.Getenv("VERIF_WALL_MS"); s != "" {
+		if n, err := strconv.ParseInt(s, 10, 64); err == nil {
+			wall = n
+		}
+	}
+	results := make([]*workerResult, nw)
+	type death struct {
+		idx  int
+		tail string
+	}
+	var deaths []death
+	var mu sync.Mutex
+	var wg sync.WaitGroup
+	for k := 0; k < nw; k++ {
+		wg.Add(1)
+		go func(k int) {
+			defer wg.Done()
+			offset := k
+			remaining := wall
+			t0 := time.Now()
+			merged := &workerResult{Faults: map[string]int{}, Probes: map[string]int{}, Extra: map[string]int{}}
+			first := true
+			for attempt := 0; attempt < 20; attempt++ {
+				job := map[string]any{"engine": p.Engine, "property": id, "tier": tier, "baseSeed": baseSeed, "offset": offset, "stride": nw,
+					"maxRuns": maxRuns, "wallMs": remaining, "replayDir": replayDir, "minimize": 250, "mode": p.Mode}
+				res, crashed, tail, lastIdx := runWorker(simBin, job, dir, k, "2")
+				if !crashed {
+					mergeInto(merged, res, first)
+					break
+				}
+				// The worker died: attribute the death to the run it had started and go on after it.
+				mu.Lock()
+				deaths = append(deaths, death{lastIdx, tail})
+				mu.Unlock()
+				if lastIdx < 0 {
+					break
+				}
+				offset = lastIdx + nw
+				remaining = wall - time.Since(t0).Milliseconds()
+				if remaining <= 1000 {
+					break
+				}
+				first = false
+			}
+			results[k] = merged
+		}(k)
+	}
+	wg.Wait()
+
+	total := &workerResult{Faults: map[string]int{}, Probes: map[string]int{}, Extra: map[string]int{}}
+	sigs := map[string]bool{}
+	for _, r := range results {
+		if r == nil {
+			continue
+		}
+		mergeInto(total, r, len(total.Samples) == 0)
+		for _, s := range r.Sigs {
+			sigs[s] = true
+		}
+	}
+	// group violations by class, keep the smallest index as representative
+	byClass := map[string]*found{}
+	for _, f := range total.Found {
+		if cur := byClass[f.V.Class]; cur == nil || f.Index < cur.Index {
+			if cur != nil {
+				f.Count += cur.Count
+			}
+			byClass[f.V.Class] = f
+		} else {
+			cur.Count += f.Count
+		}
+	}
+	var classes []string
+	for c := range byClass {
+		classes = append(classes, c)
+	}
+	sort.Strings(classes)
+
+	// process deaths: an engine panic or exit. Confirm by re-running the index alone.
+	var deathNotes []string
+	exit := 0
+	for _, d := range deaths {
+		if d.idx < 0 {
+			fmt.Printf("HARNESS-TROUBLE worker died before its first run:\n%s\n", d.tail)
+			exit = 2
+			continue
+		}
+		job := map[string]any{"engine": p.Engine, "property": id, "tier": tier, "baseSeed": baseSeed, "only": []int{d.idx}, "replayDir": replayDir, "minimize": 0, "mode": p.Mode}
+		_, crashed, tail, _ := runWorker(simBin, job, dir, 1000+d.idx, "2")
+		first := firstPanicLine(tail)
+		if !crashed {
+			fmt.Printf("HARNESS-TROUBLE worker death at run %d did not reproduce:\n%s\n", d.idx, d.tail)
+			exit = 2
+			continue
+		}
+		note := fmt.Sprintf("process died in run index %d (seed base %d): %s", d.idx, baseSeed, first)
+		deathNotes = append(deathNotes, note)
+		if id == "C12" {
+			// the process must never panic or exit (C12)
+			rp := filepath.Join(replayDir, fmt.Sprintf("C12-%s-death-%d.json", p.Engine, d.idx))
+			rb, _ := json.MarshalIndent(map[string]any{"property": "C12", "engine": p.Engine, "class": "C12.r5 process died: " + first, "baseSeed": baseSeed, "index": d.idx, "death": true, "stderr": tail}, "", " ")
+			os.WriteFile(rp, rb, 0o644)
+			f := &found{Index: d.idx, Replay: rp, Count: 1}
+			f.V.Prop, f.V.Rule, f.V.Class, f.V.Msg = "C12", "C12.r5", "C12.r5 process died: "+first, note
+			if byClass[f.V.Class] == nil {
+				byClass[f.V.Class] = f
+				classes = append(classes, f.V.Class)
+			}
+		}
+	}
+
+	known := loadKnown()
+	nViol := 0
+	var knownHit []string
+	for _, c := range classes {
+		f := byClass[c]
+		isKnown := false
+		for _, k := range known {
+			if k.Status == "known" && k.Property == f.V.Prop && k.Class == c {
+				isKnown = true
+			}
+		}
+		if isKnown {
+			fmt.Printf("KNOWN-FINDING: property=%s %s (seen %d times; e.g. run index %d)\n", f.V.Prop, c, f.Count, f.Index)
+			knownHit = append(knownHit, c)
+			continue
+		}
+		// confirm by replaying in a fresh process
+		if f.Replay != "" && !strings.Contains(f.Replay, "-death-") {
+			ok, out := replayOnce(simBin, f.Replay)
+			if !ok {
+				fmt.Printf("NONDETERMINISM class %q found at run index %d does not reproduce from %s:\n%s\n", c, f.Index, f.Replay, out)
+				exit = 2
+				continue
+			}
+		}
+		nViol++
+		fmt.Printf("VIOLATION property=%s replay=%s\n", f.V.Prop, f.Replay)
+		fmt.Printf("  class: %s\n  first witness: run index %d, seed %d: %s\n  occurrences in this batch: %d\n", c, f.Index, f.Seed, f.V.Msg, f.Count)
+	}
+	for _, h := range total.Harness {
+		fmt.Printf("HARNESS-TROUBLE %s\n", h)
+		exit = 2
+	}
+
+	wallS := time.Since(start).Seconds()
+	cov := map[string]any{
+		"evaluations":         total.Runs,
+		"distinct_nontrivial": len(sigs),
+		"nontrivial_runs":     total.Nontrivial,
+		"rule":                p.Rule,
+		"samples":             total.Samples,
+		"runs_per_hour":       int(float64(total.Runs) / (float64(wall) / 1000 / 3600)),
+		"seeds":               map[string]any{"base": baseSeed, "derivation": "run seed = Mix(base, hash(engine/property), run index)", "first_run_seed": total.FirstSeed, "last_run_seed": total.LastSeed},
+		"sim_seconds_total":   float64(total.SimNs) / 1e9,
+		"scheduler_decisions": total.Steps,
+		"events":              total.Events,
+		"faults_fired":        total.Faults,
+		"probes":              total.Probes,
+		"hangs":               total.Hangs,
+		"step_budget_overruns": total.Overruns,
+		"process_deaths":      deathNotes,
+		"workers":             nw,
+		"detsel": map[string]any{"rewritten_selects": dsRep.Rewritten, "refused": dsRep.Refused, "files_scanned": dsRep.Files, "clause_orders_drawn": total.Detsel},
+		"components": map[string]any{
+			"real": []string{"coercion.Workstream", "internal/execute (Start, runPlan, Wait, recovery)", "internal/execute/sm (all states, finalStates, recovery fix-ups)", "sm/actions (retry loop, timeout race, type check)", "workflow (Validate, Defaults), walk, registry, context", "gostdlib statemachine / worker pool / sync.Group / ShardedMap / exponential back-off", "workflow/storage/sqlite on zombiezen+modernc SQLite (in-memory)"},
+			"stub": []string{"plugins (scripted sim plugins: the environment)", "wall clock (testing/synctest fake clock)", "process death (generation switch: writes of a dead incarnation are dropped)"},
+		},
+		"known_findings_hit": knownHit,
+		"exhaustive":         false,
+	}
+	for k, v := range total.Extra {
+		cov[k] = v
+	}
+	unreached := []string{}
+	for _, k := range expectedProbes(id) {
+		if total.Probes[k] == 0 && total.Faults[k] == 0 {
+			unreached = append(unreached, k)
+		}
+	}
+	cov["unreached"] = unreached
+	ev := map[string]any{
+		"property_id": id,
+		"tier":        tier,
+		"seed":        int64(baseSeed),
+		"level":       p.Level,
+		"coverage":    cov,
+		"assumptions": []string{
+			"worker pool of fixed static size 64 created inside each simulated world (independent of the CPU count)",
+			"sim plugins' retry policy has RandomizationFactor 0 (back-off instants are a function of the attempt number)",
+			"SQLite (zombiezen/modernc), the Go runtime and testing/synctest are trusted",
+			"a crash is modelled as: no further call of the dead incarnation reaches the store or a plugin; each Update* is atomic (one auto-committed statement)",
+			"schedules are explored at seam granularity (storage call, plugin entry/exit, API call); the only multi-ready select of the engine is ordered by the simulator through the detsel overlay",
+		},
+		"wall_s":     wallS,
+		"violations": nViol,
+	}
+	os.MkdirAll(filepath.Join(root, "evidence"), 0o755)
+	eb, _ := json.MarshalIndent(ev, "", " ")
+	if err := os.WriteFile(filepath.Join(root, "evidence", id+".json"), eb, 0o644); err != nil {
+		die(2, "cannot write evidence: %v", err)
+	}
+	fmt.Printf("%s %s: %d runs (%d non-trivial, %d distinct signatures), %.0f simulated s, %d violation class(es), %d known, wall %.1fs\n",
+		id, tier, total.Runs, total.Nontrivial, len(sigs), float64(total.SimNs)/1e9, nViol, len(knownHit), wallS)
+	if nViol > 0 {
+		return 1
+	}
+	if total.Runs == 0 {
+		fmt.Println("HARNESS-TROUBLE no run was executed")
+		return 2
+	}
+	return exit
+}
+
+func firstPanicLine(s string) string {
+	for _, l := range strings.Split(s, "\n") {
+		if strings.HasPrefix(l, "panic:") || strings.HasPrefix(l, "fatal error:") {
+			return strings.TrimSpace(l)
+		}
+	}
+	for _, l := range strings.Split(s, "\n") {
+		if strings.TrimSpace(l) != "" {
+			return strings.TrimSpace(l)
+		}
+	}
+	return "no output"
+}
+
+func expectedProbes(id string) []string {
+	switch id {
+	case "C03":
+		return []string{"tolerance exceeded", "tolerance exceeded with concurrency>=2", "failures within tolerance"}
+	case "C05":
+		return []string{"attempt timed out", "retry succeeded after a failed attempt", "wrong response type", "plugin ignored cancellation"}
+	case "C06":
+		return []string{"bypass succeeded", "bypass failed", "continuous check failed at its initial run"}
+	case "C07":
+		return []string{"continuous check failed at a later run", "continuous check ran >= 5 times"}
+	case "C12":
+		return []string{"overlapping Start calls"}
+	}
+	return nil
+}
+
+func mergeInto(dst, src *workerResult, takeSamples bool) {
+	if src == nil {
+		return
+	}
+	if dst.Runs == 0 {
+		dst.FirstSeed = src.FirstSeed
+	}
+	dst.LastSeed = src.LastSeed
+	dst.Runs += src.Runs
+	dst.Nontrivial += src.Nontrivial
+	dst.Sigs = append(dst.Sigs, src.Sigs...)
+	dst.SimNs += src.SimNs
+	dst.Steps += src.Steps
+	dst.Events += src.Events
+	dst.Overruns += src.Overruns
+	dst.Hangs += src.Hangs
+	dst.Detsel += src.Detsel
+	for k, v := range src.Faults {
+		dst.Faults[k] += v
+	}
+	for k, v := range src.Probes {
+		dst.Probes[k] += v
+	}
+	for k, v := range src.Extra {
+		dst.Extra[k] += v
+	}
+	dst.Found = append(dst.Found, src.Found...)
+	dst.Harness = append(dst.Harness, src.Harness...)
+	if takeSamples && len(dst.Samples) < 3 {
+		dst.Samples = append(dst.Samples, src.Samples...)
+		if len(dst.Samples) > 3 {
+			dst.Samples = dst.Samples[:3]
+		}
+	}
+	if src.WallMs > dst.WallMs {
+		dst.WallMs = src.WallMs
+	}
+}
+
+func replayCmd(path string) int {
+	simBin, _ := build()
+	b, err := os.ReadFile(path)
+	if err != nil {
+		die(2, "replay: %v", err)
+	}
+	var rep struct {
+		Property string `json:"property"`
+		Class    string `json:"class"`
+		Death    bool   `json:"death"`
+		Engine   string `json:"engine"`
+		BaseSeed uint64 `json:"baseSeed"`
+		Index    int    `json:"index"`
+	}
+	json.Unmarshal(b, &rep)
+	if rep.Death {
+		dir := filepath.Join(root, "build", fmt.Sprintf("replay-%d", os.Getpid()))
+		os.MkdirAll(dir, 0o755)
+		defer os.RemoveAll(dir)
+		job := map[string]any{"engine": rep.Engine, "property": rep.Property, "baseSeed": rep.BaseSeed, "only": []int{rep.Index}, "minimize": 0}
+		_, crashed, tail, _ := runWorker(simBin, job, dir, 0, "2")
+		if crashed {
+			fmt.Printf("VIOLATION property=%s replay=%s\n  %s\n%s\n", rep.Property, path, rep.Class, tail)
+			return 1
+		}
+		fmt.Println("not reproduced: the process did not die")
+		return 0
+	}
+	cmd := exec.Command(simBin, "-test.run", "^TestReplay$", "-test.timeout", "0", "-test.count", "1")
+	cmd.Env = append(os.Environ(), "SIM_REPLAY="+path)
+	out, _ := cmd.CombinedOutput()
+	os.Stdout.Write(out)
+	if bytes.Contains(out, []byte("REPRODUCED property=")) && !bytes.Contains(out, []byte("NOT-REPRODUCED")) {
+		fmt.Printf("VIOLATION property=%s replay=%s\n", rep.Property, path)
+		return 1
+	}
+	return 0
+}
+
 func main() {
-	if len(os.Args) >= 4 && os.Args[1] == "detsel" {
-		ov, rep, err := detsel.Generate(os.Args[2], os.Args[3])
+	if v := os.Getenv("VERIF_ROOT"); v != "" {
+		root = v
+	}
+	if v := os.Getenv("VERIF_REPO"); v != "" {
+		repo = v
+	}
+	args := os.Args[1:]
+	if len(args) == 0 {
+		die(2, "usage: verif check <id> [--tier quick|thorough] | replay <file> | build | detsel <repo> <out> | selftest determinism")
+	}
+	switch args[0] {
+	case "detsel":
+		if len(args) < 3 {
+			die(2, "usage: verif detsel <repo> <out>")
+		}
+		ov, rep, err := detsel.Generate(args[1], args[2])
 		if err != nil {
-			fmt.Fprintln(os.Stderr, err)
-			os.Exit(2)
+			die(2, "%v", err)
 		}
 		fmt.Println(ov)
 		fmt.Printf("%+v\n", *rep)
-		return
+	case "build":
+		bin, rep := build()
+		fmt.Println(bin)
+		fmt.Printf("%+v\n", *rep)
+	case "check":
+		if len(args) < 2 {
+			die(2, "usage: verif check <id> [--tier quick|thorough]")
+		}
+		tier := os.Getenv("VERIF_TIER")
+		for i := 2; i < len(args); i++ {
+			if args[i] == "--tier" && i+1 < len(args) {
+				tier = args[i+1]
+			}
+		}
+		if tier != "thorough" {
+			tier = "quick"
+		}
+		os.Exit(check(args[1], tier))
+	case "replay":
+		if len(args) < 2 {
+			die(2, "usage: verif replay <file>")
+		}
+		os.Exit(replayCmd(args[1]))
+	case "selftest":
+		os.Exit(selftest(args[1:]))
+	default:
+		die(2, "unknown command %q", args[0])
 	}
-	fmt.Fprintln(os.Stderr, "usage")
-	os.Exit(2)
 }
